@@ -348,7 +348,30 @@ WORLDS = {
     # switches, so the client's later Initial packets carry version 2 and need v2 Initial keys.
     "v1-to-v2-compat": dict(version=V1, suite="aes128", c_supported=[V2, V1], s_supported=[V2, V1]),
 }
-ALTER_WORLDS = ["v1-aes128", "v2-chacha20", "v1-aes256-retry", "v2-aes128-retry"]
+# a world in which the server is still streaming (packets of the OLD key phase in flight) when the client
+# updates its keys: the client must keep opening them until the server has followed
+SCRIPT_OVERLAP = {
+    "c": [
+        {"op": "w", "sid": 0, "n": 1500, "g": "hs"},
+        {"op": "ku", "g": ("rx", 1, 1200)},
+        {"op": "w", "sid": 0, "n": 700, "g": ("rx", 1, 1200)},
+        {"op": "w", "sid": 0, "n": 300, "fin": True, "g": ("rx", 1, 2200)},
+    ],
+    "s": [
+        {"op": "w", "sid": 1, "n": 2200, "fin": True, "g": ("rx", 0, 1)},
+    ],
+}
+WORLDS["v1-aes128-overlap"] = dict(version=V1, suite="aes128", script="overlap")
+WORLDS["v2-aes256-overlap"] = dict(version=V2, suite="aes256", script="overlap")
+ALTER_WORLDS = ["v1-aes128", "v2-chacha20", "v1-aes256-retry", "v2-aes128-retry", "v1-aes128-overlap"]
+
+
+def world_cfg(name):
+    return {k: v for k, v in WORLDS[name].items() if k != "script"}
+
+
+def world_script(name):
+    return SCRIPT_OVERLAP if WORLDS[name].get("script") == "overlap" else SCRIPT
 
 
 def _done(w):
@@ -397,7 +420,7 @@ class Recorder(netsim.Monitor):
 def run_world(name, monitors=()):
     from vlib import explore
 
-    w = netsim.NetSim(dict(WORLDS[name]), SCRIPT, explore.Chooser([]), monitors=list(monitors), max_steps=400)
+    w = netsim.NetSim(world_cfg(name), world_script(name), explore.Chooser([]), monitors=list(monitors), max_steps=400)
     outcome = w.run(_done)
     return w, outcome
 
@@ -576,8 +599,11 @@ def mutants(raw, lo, hi, tier):
 class Mutator(netsim.Monitor):
     """At the `index`-th delivery: feed the mutants of packet k to the receiver, nothing may happen."""
 
-    def __init__(self, world, index, k, lo, hi, tier, only=None):
+    def __init__(self, world, index, k, lo, hi, tier, only=None, dry=False):
         self.world, self.index, self.k, self.lo, self.hi, self.tier, self.only = world, index, k, lo, hi, tier, only
+        self.dry = dry            # feed nothing: how does the genuine datagram fare from this very state?
+        self.watch = None         # (endpoint name, packet type, pn) of the genuine packet under test
+        self.accepted = None      # did the receiver take it (its number entered the ack queue)?
         self.count = 0
         self.fed = 0
         self.skipped = {}
@@ -601,7 +627,10 @@ class Mutator(netsim.Monitor):
             # packets coalesced before the altered one behave as in the baseline
             conn.receive_datagram(data[: pk.start], addr, now=w.now)
         base = fingerprint(conn)
-        todo = [self.only] if self.only else mutants(raw, self.lo, min(self.hi, len(raw)), self.tier)
+        recs = [r for r in (d.recs or []) if r.type in ("initial", "handshake", "0rtt", "1rtt", "retry")]
+        if self.k < len(recs) and recs[self.k].opened and recs[self.k].pn is not None:
+            self.watch = (ep.name, recs[self.k].type, recs[self.k].pn)
+        todo = [] if self.dry else ([self.only] if self.only else mutants(raw, self.lo, min(self.hi, len(raw)), self.tier))
         for off, val in todo:
             old = raw[off]
             raw[off] = val
@@ -632,11 +661,30 @@ class Mutator(netsim.Monitor):
                 return
 
 
-def alter_run(world, index, k, lo, hi, tier, only=None):
+def _accepted(conn, ptype, pn):
+    from aioquic import tls as _tls
+
+    epoch = {"initial": _tls.Epoch.INITIAL, "handshake": _tls.Epoch.HANDSHAKE}.get(ptype, _tls.Epoch.ONE_RTT)
+    sp = getattr(conn, "_spaces", {}).get(epoch)
+    if sp is None:
+        return None
+    return any(r.start <= pn < r.stop for r in sp.ack_queue) or pn < getattr(sp, "ack_queue_floor", 0)
+
+
+def _mut_after_pump(self, w, ep, cause, sent, new_events, timer):
+    if self.watch is not None and self.accepted is None and self.count == self.index + 1 \
+            and cause == "receive_datagram" and ep.name == self.watch[0]:
+        self.accepted = _accepted(ep.conn, self.watch[1], self.watch[2])
+
+
+Mutator.after_pump = _mut_after_pump
+
+
+def alter_run(world, index, k, lo, hi, tier, only=None, dry=False):
     from vlib import explore
 
-    mut = Mutator(world, index, k, lo, hi, tier, only)
-    w = netsim.NetSim(dict(WORLDS[world]), SCRIPT, explore.Chooser([]), monitors=[mut], max_steps=400)
+    mut = Mutator(world, index, k, lo, hi, tier, only, dry=dry)
+    w = netsim.NetSim(world_cfg(world), world_script(world), explore.Chooser([]), monitors=[mut], max_steps=400)
     try:
         outcome = w.run(_done)
     except Exception as e:  # noqa
@@ -695,6 +743,14 @@ def work_alter(item):
         problem = "run ended with %s" % outcome
     else:
         problem = diff_logs(base_log, world_log(w))
+    if problem is None and mut.accepted is False:
+        # "...and the genuine packet is still accepted afterwards": from the very same state, without the
+        # altered copies, is it taken?
+        dry, _w, _o = alter_run(world, index, k, lo, hi, tier, dry=True)
+        acc.n["state_rebuilds"] += 1
+        if dry.accepted:
+            problem = ("the genuine %s packet (pn %d) was NOT taken right after the altered copies, although from the "
+                       "same state without them it is" % (mut.watch[1], mut.watch[2]))
     if problem is not None:
         culprit = None
         for off, val in mut.suspects[:8]:
@@ -817,7 +873,7 @@ def work_forge(item):
     deliveries, base_log, _ = baseline(world)
     for index in range(lo, min(hi, len(deliveries))):
         fg = Forger(world, index)
-        w = netsim.NetSim(dict(WORLDS[world]), SCRIPT, explore.Chooser([]), monitors=[fg], max_steps=400)
+        w = netsim.NetSim(world_cfg(world), world_script(world), explore.Chooser([]), monitors=[fg], max_steps=400)
         try:
             outcome = w.run(_done)
         except Exception as e:  # noqa
@@ -852,7 +908,7 @@ def forge_selfcheck():
     deliveries, _, _ = baseline("v1-aes128")
     index = next(i for i, x in enumerate(deliveries) if x[1] == "c")
     fg = Forger("v1-aes128", index, sanity=True)
-    w = netsim.NetSim(dict(WORLDS["v1-aes128"]), SCRIPT, explore.Chooser([]), monitors=[fg], max_steps=400)
+    w = netsim.NetSim(world_cfg("v1-aes128"), SCRIPT, explore.Chooser([]), monitors=[fg], max_steps=400)
     try:
         w.run(_done)
     except Exception:  # noqa
